@@ -511,6 +511,9 @@ class Body:
         if l in self._stable:
             return self._stable[l]
         ds = self.defs().get(l, [])
+        # writes *through* a pointer local (`(*l).f = ..`) do not redefine the local itself
+        ds = [d for d in ds if not ((d[0] == 'assign' and d[2]['pl']['p'] and d[2]['pl']['p'][0] == 'deref') or
+                                    (d[0] == 'call' and d[2].dest['p'] and d[2].dest['p'][0] == 'deref'))]
         ok = len(ds) == 1 and not (ds[0][0] == 'assign' and ds[0][2]['pl']['p']) and \
             not (ds[0][0] == 'call' and ds[0][2].dest['p']) and \
             (l not in self._mutb or any(n.startswith('__awaitee') for n in [self.name_of(l) or '']))
